@@ -128,7 +128,11 @@ type c08Sweep struct {
 }
 
 func c08SweepCheck(l *explore.Local, _ struct{}, c c08Sweep) *explore.Fail {
-	p := newCartPair(c.Cart)
+	p := tryCartPair(c.Cart)
+	if p == nil {
+		l.OutcomeStr("rejected at construction: " + c.Cart.String())
+		return nil
+	}
 	if f := p.checkWindows("power-on"); f != nil {
 		return f
 	}
@@ -184,7 +188,11 @@ var c08BlindVals = []uint8{0x00, 0x01, 0x0a, 0x1f, 0x20, 0x21, 0x60, 0xff}
 var c08BlindAddrs = []uint16{0x0000, 0x2000, 0x2100, 0x3000, 0x4000, 0x6000}
 
 func c08BlindCheck(l *explore.Local, _ struct{}, c c08Blind) *explore.Fail {
-	p := newCartPair(c.Spec)
+	p := tryCartPair(c.Spec)
+	if p == nil {
+		l.OutcomeStr("rejected at construction: " + c.Spec.String())
+		return nil
+	}
 	apply := func(ev c08Ev) {
 		p.m.Map.Write(ev.A, ev.V)
 		p.mod.Write(ev.A, ev.V)
@@ -316,7 +324,7 @@ func init() {
 			}, func() struct{} { return struct{}{} }, c08BlindCheck)
 		explore.Product(c.R, "sweeps-all-cart-types", explore.PartOpt{
 			Bound:  "4 fixed orders of all 14x256 control writes on one instance each, then every page re-read",
-			Domain: "every supported cartridge-type byte x ROM-size codes {0, 1, max} (thorough: all codes)"},
+			Domain: "every supported cartridge-type byte x ROM-size codes {0, 1, max} (thorough: all codes); codes 52-54 where accepted"},
 			func(yield func(c08Sweep) bool) {
 				for _, k := range c08Kinds {
 					for _, typ := range c08Types[k] {
@@ -334,7 +342,30 @@ func init() {
 							}
 						}
 					}
+					// the in-between size codes 52-54 (72, 80, 96 pages): where the emulator accepts such an image, "modulo the
+					// ROM size" is no longer a bit mask
+					for _, code := range []uint8{0x52, 0x53, 0x54} {
+						for _, o := range []int{0, 2} {
+							if !yield(c08Sweep{cartSpec{c08Types[k][0], code, 3}, o}) {
+								return
+							}
+						}
+					}
 				}
 			}, func() struct{} { return struct{}{} }, c08SweepCheck)
+		explore.Product(c.R, "blind-write-sequences-odd-sizes", explore.PartOpt{Bound: "every sequence of 2 control writes without a read in between, then one observation", Domain: "ROM-size codes 52, 53, 54 (72, 80, 96 pages) on one cartridge type per controller; images the emulator rejects at construction are skipped"},
+			func(yield func(c08Blind) bool) {
+				for _, k := range c08Kinds {
+					for _, code := range []uint8{0x52, 0x53, 0x54} {
+						for _, a := range c08BlindAddrs {
+							for _, v := range c08BlindVals {
+								if !yield(c08Blind{Spec: cartSpec{c08Types[k][0], code, 3}, First: c08Ev{a, v}, Depth: 2}) {
+									return
+								}
+							}
+						}
+					}
+				}
+			}, func() struct{} { return struct{}{} }, c08BlindCheck)
 	})
 }
